@@ -427,6 +427,9 @@ func runC02(c *Ctx, emit func(cs *progs.Case) progs.Obs) {
 				}
 			}
 			desc := map[string]interface{}{"method": m, "entry": en.name, "value": p.Describe(), "settings": fmt.Sprintf("%+v", s), "line": fmt.Sprintf("%q", o.Line)}
+			if probeHistory != nil {
+				desc["the_event_logged_just_before"] = probeHistory
+			}
 			if !ok {
 				c.Violate(Violation{Key: "field-missing", Monitor: "decode-back", Desc: fmt.Sprintf("%s through %s: the field is not in the decoded event", m, en.name), Case: desc})
 				continue
@@ -536,6 +539,9 @@ func runC02(c *Ctx, emit func(cs *progs.Case) progs.Obs) {
 	runC02History(c, emit)
 }
 
+// probeHistory: set by sweeps whose cases are meant to follow one another (what was logged by the previous case)
+var probeHistory interface{}
+
 // eulerWalk: a sequence over 0..n-1 in which every ordered pair (a, b), a != b, occurs as two consecutive items
 func eulerWalk(n int) []int {
 	used := map[[2]int]bool{}
@@ -621,10 +627,13 @@ func runC02Directed(c *Ctx, probe func(string, progs.Prim, progs.Settings), prob
 		for _, i := range w {
 			want := entries[step%len(entries)]
 			step++
-			probeSel("Time", progs.Prim{M: "Time", V: instants[i]}, s, func(e string) bool { return e == want })
+			p := progs.Prim{M: "Time", V: instants[i]}
+			probeSel("Time", p, s, func(e string) bool { return e == want })
+			probeHistory = map[string]interface{}{"value": p.Describe(), "entry": want, "TimeFieldFormat": layout}
 		}
 		c.Hist("c02_time_neighbours", layout)
 	}
+	probeHistory = nil
 }
 
 // runC02History: the event under test is preceded, on the same logger and goroutine, by events that are filtered out
